@@ -207,3 +207,34 @@ func HarnessC13DecodeBig(kind int) {
 	c13CheckData(d.Sections[0].Syntax.Data, s)
 	vreach("C13.big.end")
 }
+
+// HarnessC13Multi: a PAT unit of two sections of n programs each, long enough to span 3-4 TS packets with the second
+// section starting in the middle of a continuation packet (the layout a multiplexer produces when it packs large
+// tables back to back): both tables are delivered through the Demuxer, field for field
+func HarnessC13Multi(n, first int) {
+	var secs []*mSection
+	for k := 0; k < 2; k++ {
+		ps := &mSection{tableID: 0, ssi: true, ext: vnondetU16(), version: vBits8(5), cni: true, secNum: uint8(k), lastSecNum: 1}
+		ps.pat = &PATData{TransportStreamID: ps.ext}
+		for i := 0; i < n; i++ {
+			ps.pat.Programs = append(ps.pat.Programs, &PATProgram{ProgramNumber: uint16(1 + k*n + i), ProgramMapID: uint16(0x1000 + k*n + i)})
+		}
+		secs = append(secs, ps)
+	}
+	s := &sStream{}
+	u := mkPSI(0, 1, secs, 0, 0)
+	s.add(u, packetize(u, 3, first, true))
+	vassert("C13.multi.layout", u.npkts >= 3)
+	dmx, _ := newDmx(s.bytes())
+	for k := 0; k < 2; k++ {
+		d, err := dmx.NextData()
+		vassert("C13.multi.err", err == nil && d != nil && d.PAT != nil)
+		if err != nil || d == nil || d.PAT == nil {
+			return
+		}
+		c13CheckData(&PSISectionSyntaxData{PAT: d.PAT}, secs[k])
+	}
+	_, err := dmx.NextData()
+	vassert("C13.multi.end", err == ErrNoMorePackets)
+	vreach("C13.multi.end")
+}
